@@ -34,6 +34,7 @@ pub struct UpgradeBinder {
 impl UpgradeBinder {
     pub fn new(inst: &J, init: &J) -> UpgradeBinder {
         let mut cx = Ctx::new();
+        cx.ledger_step = 5;
         let env = cx.env.clone();
         let kind = jstr(inst, "Target");
         let owner = cx.addr(&jstr(init, "owner"));
